@@ -27,7 +27,11 @@ import GaeaVerif.Gen.Consts
   * "with forced-local reads a replica outside the proxy's datacenter is never
     picked": `Sound` (`.conn`, `.pool`), `selected_node_ok`;
   * "preferred-local falls back to remote replicas only when no local one can
-    serve": `prefer_local_first_partial` + `prefer_local_witness` (open finding);
+    serve": `prefer_local_first` (full strength, after the `fix:` commit 5e14b16;
+    `getConnFromBalancerTryAll_spec` is the retry loop's contract,
+    `GetSlaveConnGets_spec` says which pools one selection asks), with the
+    converse `prefer_local_serves` and `prefer_gives_up_only_if_none_serves`;
+    `prefer_local_legacy_witness` records the repaired defect;
   * configurations: any node list, weights, datacenters, states (no bound);
     schedules: `cas_linearizable` (any interleaving of the atomic actions of
     concurrent `next` callers); `GetSlaveConn` runs under the `DBInfo` lock.
@@ -614,6 +618,219 @@ theorem getConnFromBalancer_cases (nodes : List Node) (b : Balancer) (hL : b.rou
   · rw [e]
     exact ⟨b', _, rfl, hq, Or.inr (Or.inr ⟨rfl, hall⟩)⟩
 
+/-! ### `getConnFromBalancerTryAll`: every node of the queue that is up is asked -/
+
+/-- Any number of selections succeeds on a non-empty queue. -/
+theorem nextN_ok' (n : Nat) : ∀ (b : Balancer), b.roundRobinQ ≠ [] →
+    ∃ b' ps, nextN n b = .ok (b', ps) ∧ b'.roundRobinQ = b.roundRobinQ := by
+  induction n with
+  | zero => intro b _; exact ⟨b, [], rfl, rfl⟩
+  | succ n ih =>
+    intro b hne
+    obtain ⟨b1, v, e, _, hq⟩ := next_ok b hne
+    obtain ⟨b', ps, e2, hq2⟩ := ih b1 (by rw [hq]; exact hne)
+    exact ⟨b', v :: ps, by simp only [nextN, e, e2], by rw [hq2, hq]⟩
+
+/-- A run of `m + n` selections is a run of `m` followed by a run of `n`. -/
+theorem nextN_split (m n : Nat) (b b2 : Balancer) (zs : List Int) (hne : b.roundRobinQ ≠ [])
+    (h : nextN (m + n) b = .ok (b2, zs)) :
+    ∃ b1 xs ys, nextN m b = .ok (b1, xs) ∧ nextN n b1 = .ok (b2, ys) ∧ zs = xs ++ ys := by
+  obtain ⟨b1, xs, e1, hq1⟩ := nextN_ok' m b hne
+  obtain ⟨b2', ys, e2, _⟩ := nextN_ok' n b1 (by rw [hq1]; exact hne)
+  have := nextN_append m n b b1 b2' xs ys e1 e2
+  rw [h] at this
+  simp only [R.ok.injEq, Prod.mk.injEq] at this
+  obtain ⟨rfl, rfl⟩ := this
+  exact ⟨b1, xs, ys, e1, e2, rfl⟩
+
+/-- One round of selections, from any cursor value, meets every entry of the queue. -/
+theorem round_covers (b b' : Balancer) (ps : List Int) (hne : b.roundRobinQ ≠ [])
+    (hL : b.roundRobinQ.length ≤ 4294967296) (h : nextN b.roundRobinQ.length b = .ok (b', ps)) :
+    ∀ v ∈ b.roundRobinQ, v ∈ ps := by
+  intro v hv
+  by_cases h1 : b.roundRobinQ.length = 1
+  · obtain ⟨c, q, pi, pw⟩ := b
+    simp only at h1 h hv
+    match q, h1 with
+    | [x], _ =>
+      simp only [List.length_singleton, nextN, next_single] at h
+      simp only [R.ok.injEq, Prod.mk.injEq] at h
+      have hx : v = x := by simpa using hv
+      rw [← h.2, hx]; simp
+  · have hlen : 2 ≤ b.roundRobinQ.length := by
+      have := List.length_pos_iff.mpr hne; omega
+    obtain ⟨b3, ps', e, hp, _⟩ := window_exact b hlen hL
+    rw [e] at h
+    simp only [R.ok.injEq, Prod.mk.injEq] at h
+    rw [← h.2]; exact hp.symm.subset hv
+
+/-- …and so does every longer run. -/
+theorem nextN_covers (K : Nat) (b b' : Balancer) (ps : List Int) (hne : b.roundRobinQ ≠ [])
+    (hL : b.roundRobinQ.length ≤ 4294967296) (hK : b.roundRobinQ.length ≤ K)
+    (h : nextN K b = .ok (b', ps)) : ∀ v ∈ b.roundRobinQ, v ∈ ps := by
+  have e : K = b.roundRobinQ.length + (K - b.roundRobinQ.length) := by omega
+  rw [e] at h
+  obtain ⟨b1, xs, ys, e1, _, rfl⟩ := nextN_split _ _ b b' ps hne h
+  intro v hv
+  exact List.mem_append_left _ (round_covers b b1 xs hne hL e1 v hv)
+
+/-- `getNodeLoop` as a run of `next`: a node is returned after `k + 1 ≤ n`
+    selections, the first `k` of which met nodes that are down; or all `n` did. -/
+theorem getNodeLoop_trace (nodes : List Node) (n : Nat) : ∀ (b : Balancer), b.roundRobinQ ≠ [] →
+    (∃ b' i k ps, getNodeLoop nodes n b = (b', .conn i) ∧ k < n ∧ nextN (k + 1) b = .ok (b', ps ++ [i]) ∧
+        (∀ v ∈ ps, upAt nodes v = false) ∧ upAt nodes i = true) ∨
+    (∃ b', getNodeLoop nodes n b = (b', .noHealthy)) := by
+  induction n with
+  | zero => intro b _; exact Or.inr ⟨b, rfl⟩
+  | succ n ih =>
+    intro b hne
+    obtain ⟨b1, v, e, hv, hq⟩ := next_ok b hne
+    have hne1 : b1.roundRobinQ ≠ [] := by rw [hq]; exact hne
+    have hrec : (∃ b', getNodeLoop nodes n b1 = (b', .noHealthy)) ∨ True := Or.inr trivial
+    have step : upAt nodes v = false →
+        ((∃ b' i k ps, getNodeLoop nodes n b1 = (b', .conn i) ∧ k < n + 1 ∧ nextN (k + 1) b = .ok (b', ps ++ [i]) ∧
+            (∀ v ∈ ps, upAt nodes v = false) ∧ upAt nodes i = true) ∨
+         (∃ b', getNodeLoop nodes n b1 = (b', .noHealthy))) := by
+      intro hdown
+      rcases ih b1 hne1 with ⟨b', i, k, ps, h1, h2, h3, h4, h5⟩ | ⟨b', h1⟩
+      · refine Or.inl ⟨b', i, k + 1, v :: ps, h1, by omega, ?_, ?_, h5⟩
+        · have : nextN (k + 1 + 1) b = .ok (b', v :: (ps ++ [i])) := by
+            unfold nextN
+            simp only [e, h3]
+          simpa using this
+        · intro x hx
+          rcases List.mem_cons.mp hx with rfl | hx
+          · exact hdown
+          · exact h4 x hx
+      · exact Or.inr ⟨b', h1⟩
+    simp only [getNodeLoop, e]
+    cases hg : GetNode nodes v with
+    | some nd =>
+      by_cases hu : nd.up = true
+      · simp only [hu, if_true]
+        refine Or.inl ⟨b1, v, 0, [], rfl, by omega, ?_, by simp, by simp [upAt, hg, hu]⟩
+        simp only [nextN, e, List.nil_append]
+      · simp only [hu, if_false]
+        exact step (by simp [upAt, hg]; simpa using hu)
+    | none =>
+      simp only
+      exact step (by simp [upAt, hg])
+
+
+/-- `getNodeFromBalancer` as a run of `next` (see `getNodeLoop_trace`). -/
+theorem getNodeFromBalancer_trace (nodes : List Node) (b : Balancer) (hL : b.roundRobinQ.length ≤ 4294967296) :
+    (∃ b' i k ps, getNodeFromBalancer nodes b = (b', .conn i) ∧ nextN (k + 1) b = .ok (b', ps ++ [i]) ∧
+        (∀ v ∈ ps, upAt nodes v = false) ∧ upAt nodes i = true ∧ i ∈ b.roundRobinQ ∧
+        b'.roundRobinQ = b.roundRobinQ) ∨
+    (∃ b', getNodeFromBalancer nodes b = (b', .noHealthy) ∧ (∀ v ∈ b.roundRobinQ, upAt nodes v = false) ∧
+        b'.roundRobinQ = b.roundRobinQ) := by
+  rcases getNodeFromBalancer_cases nodes b hL with ⟨b', i, e, hi, hu, hq⟩ | ⟨b', e, hall, hq⟩
+  · have hne : b.roundRobinQ ≠ [] := List.ne_nil_of_mem hi
+    have e' := e
+    unfold getNodeFromBalancer at e'
+    rcases getNodeLoop_trace nodes b.roundRobinQ.length b hne with ⟨b2, j, k, ps, h1, _, h3, h4, h5⟩ | ⟨b2, h1⟩
+    · rw [h1] at e'
+      simp only [Prod.mk.injEq, Sel.conn.injEq] at e'
+      obtain ⟨rfl, rfl⟩ := e'
+      exact Or.inl ⟨b2, j, k, ps, e, h3, h4, h5, hi, hq⟩
+    · rw [h1] at e'; simp at e'
+  · exact Or.inr ⟨b', e, hall, hq⟩
+
+/-- Neither up nor able to give a connection. -/
+def cannotServe (nodes : List Node) (v : Int) : Prop := upAt nodes v = false ∨ poolAt nodes v = false
+
+/-- The loop of `getConnFromBalancerTryAll`, started on balancer `b0`: `K`
+    selections (`picks`) have been made so far, every node met is down, or its
+    pool has been asked and failed; `m` iterations are left and `m + K` is at
+    least the queue length, so when the loop runs out one whole round has been
+    made (`nextN_covers`) and no node of the queue can serve. -/
+theorem tryAllLoop_spec (nodes : List Node) (b0 : Balancer) (hne : b0.roundRobinQ ≠ [])
+    (hL : b0.roundRobinQ.length ≤ 4294967296) :
+    ∀ (m : Nat) (tried : List Int) (last : Sel) (b : Balancer) (K : Nat) (picks : List Int),
+      b.roundRobinQ = b0.roundRobinQ → nextN K b0 = .ok (b, picks) →
+      (∀ v ∈ picks, cannotServe nodes v) → (∀ v ∈ tried, poolAt nodes v = false ∧ v ∈ b0.roundRobinQ) → tried.Nodup →
+      b0.roundRobinQ.length ≤ m + K → (last = .noHealthy ∨ ∃ i, last = .pool i) →
+      ∃ b' o tr, tryAllLoop nodes m tried last b = (b', o, tr) ∧ b'.roundRobinQ = b0.roundRobinQ ∧ tr.Nodup ∧
+        (∀ v ∈ tr, v ∈ b0.roundRobinQ) ∧
+        ((∃ i, o = .conn i ∧ i ∈ b0.roundRobinQ ∧ upAt nodes i = true ∧ poolAt nodes i = true) ∨
+         ((o = .noHealthy ∨ ∃ i, o = .pool i) ∧ ∀ v ∈ b0.roundRobinQ, cannotServe nodes v)) := by
+  intro m
+  induction m with
+  | zero =>
+    intro tried last b K picks hq hrun hpicks htried hnd hK hlast
+    refine ⟨b, last, tried, rfl, hq, hnd, fun v hv => (htried v hv).2, Or.inr ⟨hlast, ?_⟩⟩
+    intro v hv
+    exact hpicks v (nextN_covers K b0 b picks hne hL (by omega) hrun v hv)
+  | succ m ih =>
+    intro tried last b K picks hq hrun hpicks htried hnd hK hlast
+    have hLb : b.roundRobinQ.length ≤ 4294967296 := by rw [hq]; exact hL
+    rcases getNodeFromBalancer_trace nodes b hLb with ⟨b1, i, k, ps, e, hnext, hps, hup, hi, hq1⟩ | ⟨b1, e, hall, hq1⟩
+    · -- a node that is up was found after k + 1 selections
+      have hrun1 := nextN_append K (k + 1) b0 b b1 picks (ps ++ [i]) hrun hnext
+      have hq1' : b1.roundRobinQ = b0.roundRobinQ := by rw [hq1, hq]
+      have hi0 : i ∈ b0.roundRobinQ := by rw [← hq]; exact hi
+      have hpicks1 : poolAt nodes i = false → ∀ v ∈ picks ++ (ps ++ [i]), cannotServe nodes v := by
+        intro hpi v hv
+        rcases List.mem_append.mp hv with hv | hv
+        · exact hpicks v hv
+        · rcases List.mem_append.mp hv with hv | hv
+          · exact Or.inl (hps v hv)
+          · have : v = i := by simpa using hv
+            rw [this]; exact Or.inr hpi
+      simp only [tryAllLoop, e]
+      by_cases hc : tried.contains i = true
+      · -- its pool has been asked already: continue
+        simp only [hc, if_true]
+        have hpi : poolAt nodes i = false := (htried i (by simpa using hc)).1
+        exact ih tried last b1 (K + (k + 1)) _ hq1' hrun1 (hpicks1 hpi) htried hnd (by omega) hlast
+      · simp only [hc, if_false]
+        have hni : i ∉ tried := by simpa using hc
+        cases hg : GetNode nodes i with
+        | none => simp [upAt, hg] at hup
+        | some nd =>
+          simp only
+          by_cases hp : nd.poolOk = true
+          · simp only [hp, if_true]
+            refine ⟨b1, _, _, rfl, hq1', List.nodup_cons.mpr ⟨hni, hnd⟩, ?_,
+              Or.inl ⟨i, rfl, hi0, hup, by simp [poolAt, hg, hp]⟩⟩
+            intro v hv
+            rcases List.mem_cons.mp hv with rfl | hv
+            · exact hi0
+            · exact (htried v hv).2
+          · simp only [hp, if_false]
+            have hpi : poolAt nodes i = false := by simp [poolAt, hg]; simpa using hp
+            refine ih (i :: tried) (.pool i) b1 (K + (k + 1)) _ hq1' hrun1 (hpicks1 hpi) ?_
+              (List.nodup_cons.mpr ⟨hni, hnd⟩) (by omega) (Or.inr ⟨i, rfl⟩)
+            intro v hv
+            rcases List.mem_cons.mp hv with rfl | hv
+            · exact ⟨hpi, hi0⟩
+            · exact htried v hv
+    · -- every node of the queue is down
+      simp only [tryAllLoop, e]
+      refine ⟨b1, _, _, rfl, by rw [hq1, hq], hnd, fun v hv => (htried v hv).2, Or.inr ⟨Or.inl rfl, ?_⟩⟩
+      intro v hv
+      exact Or.inl (hall v (by rw [hq]; exact hv))
+
+/-- **C25 (retry).** `getConnFromBalancerTryAll` never panics, leaves the queue
+    alone, asks no pool twice and only pools of nodes of the queue, and either
+    hands out a connection of a node of the queue that is up and whose pool
+    answers, or fails — and it fails only if *every* node of the queue is down
+    or has a failing pool. -/
+theorem getConnFromBalancerTryAll_spec (nodes : List Node) (b : Balancer) (hL : b.roundRobinQ.length ≤ 4294967296) :
+    ∃ b' o tr, getConnFromBalancerTryAll nodes b = (b', o, tr) ∧ b'.roundRobinQ = b.roundRobinQ ∧ tr.Nodup ∧
+      (∀ v ∈ tr, v ∈ b.roundRobinQ) ∧
+      ((∃ i, o = .conn i ∧ i ∈ b.roundRobinQ ∧ upAt nodes i = true ∧ poolAt nodes i = true) ∨
+       ((o = .noHealthy ∨ ∃ i, o = .pool i) ∧ ∀ v ∈ b.roundRobinQ, cannotServe nodes v)) := by
+  unfold getConnFromBalancerTryAll
+  by_cases hne : b.roundRobinQ = []
+  · rw [hne]
+    exact ⟨b, .noHealthy, [], rfl, hne, List.nodup_nil, by simp, Or.inr ⟨Or.inl rfl, by simp⟩⟩
+  · exact tryAllLoop_spec nodes b hne hL b.roundRobinQ.length [] .noHealthy b 0 [] rfl rfl (by simp) (by simp)
+      List.nodup_nil (by omega) (Or.inl rfl)
+
+example : getConnFromBalancerTryAll [⟨1, 0, true, false⟩, ⟨1, 0, true, true⟩] ⟨1, [0, 1], [0, 1], [1, 1]⟩
+    = (⟨1, [0, 1], [0, 1], [1, 1]⟩, .conn 1, [1, 0]) := by decide
+
 /-! ### `getIndicesAndWeights` / `InitBalancers` -/
 
 /-- Reference: the (index, weight) pairs of the nodes from position `k` on that
@@ -724,6 +941,9 @@ theorem GetNode_some (nodes : List Node) (i : Int) (nd : Node) (h : GetNode node
   split at h
   · cases h
   · rename_i hc; exact ⟨by omega, h⟩
+
+theorem GetNode_mem (nodes : List Node) (i : Int) (nd : Node) (h : GetNode nodes i = some nd) : nd ∈ nodes :=
+  List.mem_of_getElem? (GetNode_some nodes i nd h).2
 
 /-- What `InitBalancers` establishes and every later step keeps: each
     balancer's queue holds exactly the nodes of its class with a positive
@@ -878,23 +1098,24 @@ theorem poolAt_eq (nodes : List Node) (i : Int) (nd : Node) (h : GetNode nodes i
 def AllDown (proxy : Nat) (nodes : List Node) (localOnly : Bool) : Prop :=
   ∀ j nd, GetNode nodes j = some nd → 0 < nd.weight → (localOnly = true → nd.dc = proxy) → nd.up = false
 
-/-- some node of positive weight (in the proxy's datacenter if `localOnly`) is up but its pool fails -/
-def SomeFailing (proxy : Nat) (nodes : List Node) (localOnly : Bool) : Prop :=
-  ∃ j nd, GetNode nodes j = some nd ∧ 0 < nd.weight ∧ (localOnly = true → nd.dc = proxy) ∧ nd.up = true ∧ nd.poolOk = false
+/-- no node of positive weight (in the proxy's datacenter if `localOnly`) can
+    serve: each one is down or its pool fails -/
+def NoneServes (proxy : Nat) (nodes : List Node) (localOnly : Bool) : Prop :=
+  ∀ j nd, GetNode nodes j = some nd → 0 < nd.weight → (localOnly = true → nd.dc = proxy) →
+    nd.up = false ∨ nd.poolOk = false
 
 /-- What the property demands of one selection made in state `d` under `policy`. -/
 def Sound (proxy : Nat) (d : DBInfo) (policy : Int) : Sel → Prop
   | .conn i => ∃ nd, GetNode d.nodes i = some nd ∧ 0 < nd.weight ∧ nd.up = true ∧ nd.poolOk = true ∧
       (policy = LocalSlaveReadForce → nd.dc = proxy) ∧
-      (policy = LocalSlaveReadPrefer → nd.dc ≠ proxy →
-        AllDown proxy d.nodes true ∨ SomeFailing proxy d.nodes true)
+      (policy = LocalSlaveReadPrefer → nd.dc ≠ proxy → NoneServes proxy d.nodes true)
   | .pool i => ∃ nd, GetNode d.nodes i = some nd ∧ 0 < nd.weight ∧ nd.up = true ∧ nd.poolOk = false ∧
-      (policy = LocalSlaveReadForce → nd.dc = proxy)
+      (policy = LocalSlaveReadForce → nd.dc = proxy) ∧ policy ≠ LocalSlaveReadPrefer
   | .noSlave => ∀ nd ∈ d.nodes, nd.up = false
   | .noLocalBalancer => policy = LocalSlaveReadForce ∧ AllDown proxy d.nodes true
   | .noGlobalBalancer => policy ≠ LocalSlaveReadForce ∧ policy ≠ LocalSlaveReadPrefer ∧ AllDown proxy d.nodes false
   | .noHealthy => policy ≠ LocalSlaveReadPrefer ∧ AllDown proxy d.nodes (decide (policy = LocalSlaveReadForce))
-  | .noLocalOrRemote => policy = LocalSlaveReadPrefer ∧ (AllDown proxy d.nodes false ∨ SomeFailing proxy d.nodes false)
+  | .noLocalOrRemote => policy = LocalSlaveReadPrefer ∧ NoneServes proxy d.nodes false
   | .nextErr => False
   | .panic => False
 
@@ -1074,6 +1295,99 @@ theorem attemptGlobal_spec (proxy : Nat) (d : DBInfo) (hwf : WF proxy d) (hfit :
     · exact Or.inr (Or.inl h)
     · exact Or.inr (Or.inr ⟨Or.inl h1, h2⟩)
 
+/-- The retrying attempt on one balancer whose queue holds exactly the nodes of
+    class `cls` with positive weight: a connection of such a node that is up and
+    whose pool answers, or no node of the class can serve. -/
+theorem attemptAll_spec (nodes : List Node) (b : Balancer) (cls : Node → Prop)
+    (hL : b.roundRobinQ.length ≤ 4294967296)
+    (hin : ∀ v ∈ b.roundRobinQ, ∃ nd, GetNode nodes v = some nd ∧ 0 < nd.weight ∧ cls nd)
+    (hall : ∀ i nd, GetNode nodes i = some nd → 0 < nd.weight → cls nd → i ∈ b.roundRobinQ) :
+    ∃ b' o tr, getConnFromBalancerTryAll nodes b = (b', o, tr) ∧ b'.roundRobinQ = b.roundRobinQ ∧
+      (tr.Nodup ∧ ∀ v ∈ tr, ∃ nd, GetNode nodes v = some nd ∧ 0 < nd.weight ∧ cls nd) ∧
+      ((∃ i nd, o = .conn i ∧ GetNode nodes i = some nd ∧ 0 < nd.weight ∧ cls nd ∧ nd.up = true ∧ nd.poolOk = true) ∨
+       ((o = .noHealthy ∨ ∃ i, o = .pool i) ∧
+          ∀ j nd, GetNode nodes j = some nd → 0 < nd.weight → cls nd → nd.up = false ∨ nd.poolOk = false)) := by
+  obtain ⟨b', o, tr, e, hq, hnd, htr, hc⟩ := getConnFromBalancerTryAll_spec nodes b hL
+  refine ⟨b', o, tr, e, hq, ⟨hnd, fun v hv => hin v (htr v hv)⟩, ?_⟩
+  rcases hc with ⟨i, rfl, hi, hu, hp⟩ | ⟨ho, hnone⟩
+  · obtain ⟨nd, h1, h2, h3⟩ := hin i hi
+    exact Or.inl ⟨i, nd, rfl, h1, h2, h3, by rw [← upAt_eq nodes i nd h1]; exact hu,
+      by rw [← poolAt_eq nodes i nd h1]; exact hp⟩
+  · refine Or.inr ⟨ho, ?_⟩
+    intro j nd h1 h2 h3
+    have := hnone j (hall j nd h1 h2 h3)
+    unfold cannotServe at this
+    rw [upAt_eq nodes j nd h1, poolAt_eq nodes j nd h1] at this
+    exact this
+
+/-- Outcome of one guarded retrying attempt on the balancer of the class `cls`. -/
+def AttemptAllOut (nodes : List Node) (cls : Node → Prop) (o : Sel) : Prop :=
+  (∃ i nd, o = .conn i ∧ GetNode nodes i = some nd ∧ 0 < nd.weight ∧ cls nd ∧ nd.up = true ∧ nd.poolOk = true) ∨
+  ((o = .noHealthy ∨ o = .noLocalBalancer ∨ ∃ i, o = .pool i) ∧
+    ∀ j nd, GetNode nodes j = some nd → 0 < nd.weight → cls nd → nd.up = false ∨ nd.poolOk = false)
+
+theorem attemptLocalAll_spec (proxy : Nat) (d : DBInfo) (hwf : WF proxy d) (hfit : Fits d) :
+    ∃ d1 o tr, attemptLocalAll d = (d1, o, tr) ∧ SameQueues d d1 ∧
+      (tr.Nodup ∧ ∀ v ∈ tr, ∃ nd, GetNode d.nodes v = some nd ∧ 0 < nd.weight ∧ nd.dc = proxy) ∧
+      AttemptAllOut d.nodes (fun nd => nd.dc = proxy) o := by
+  unfold attemptLocalAll
+  cases hl : d.localB with
+  | none =>
+    refine ⟨d, _, _, rfl, ⟨rfl, rfl, rfl, rfl⟩, ⟨List.nodup_nil, by simp⟩, Or.inr ⟨Or.inr (Or.inl rfl), ?_⟩⟩
+    intro j nd h1 h2 h3
+    obtain ⟨b, hb, _⟩ := hwf.locAll j nd h1 h2 h3
+    rw [hl] at hb; cases hb
+  | some b =>
+    obtain ⟨b', o, tr, e, hq, htr, hc⟩ := attemptAll_spec d.nodes b (fun nd => nd.dc = proxy)
+      (hfit b (Or.inl hl)) (hwf.loc b hl)
+      (by
+        intro i nd h1 h2 h3
+        obtain ⟨b2, hb2, hi⟩ := hwf.locAll i nd h1 h2 h3
+        rw [hl] at hb2; cases hb2; exact hi)
+    simp only [e]
+    refine ⟨_, o, tr, rfl, ⟨rfl, by simp [hl, hq], rfl, rfl⟩, htr, ?_⟩
+    rcases hc with h | ⟨h1, h2⟩
+    · exact Or.inl h
+    · refine Or.inr ⟨?_, h2⟩
+      rcases h1 with h1 | h1
+      · exact Or.inl h1
+      · exact Or.inr (Or.inr h1)
+
+theorem attemptRemoteAll_spec (proxy : Nat) (d : DBInfo) (hwf : WF proxy d) (hfit : Fits d) :
+    ∃ d1 o tr, attemptRemoteAll d = (d1, o, tr) ∧ SameQueues d d1 ∧
+      (tr.Nodup ∧ ∀ v ∈ tr, ∃ nd, GetNode d.nodes v = some nd ∧ 0 < nd.weight ∧ nd.dc ≠ proxy) ∧
+      AttemptAllOut d.nodes (fun nd => nd.dc ≠ proxy) o := by
+  unfold attemptRemoteAll
+  cases hl : d.remoteB with
+  | none =>
+    refine ⟨d, _, _, rfl, ⟨rfl, rfl, rfl, rfl⟩, ⟨List.nodup_nil, by simp⟩, Or.inr ⟨Or.inr (Or.inl rfl), ?_⟩⟩
+    intro j nd h1 h2 h3
+    obtain ⟨b, hb, _⟩ := hwf.remAll j nd h1 h2 h3
+    rw [hl] at hb; cases hb
+  | some b =>
+    obtain ⟨b', o, tr, e, hq, htr, hc⟩ := attemptAll_spec d.nodes b (fun nd => nd.dc ≠ proxy)
+      (hfit b (Or.inr (Or.inl hl))) (hwf.rem b hl)
+      (by
+        intro i nd h1 h2 h3
+        obtain ⟨b2, hb2, hi⟩ := hwf.remAll i nd h1 h2 h3
+        rw [hl] at hb2; cases hb2; exact hi)
+    simp only [e]
+    refine ⟨_, o, tr, rfl, ⟨rfl, rfl, by simp [hl, hq], rfl⟩, htr, ?_⟩
+    rcases hc with h | ⟨h1, h2⟩
+    · exact Or.inl h
+    · refine Or.inr ⟨?_, h2⟩
+      rcases h1 with h1 | h1
+      · exact Or.inl h1
+      · exact Or.inr (Or.inr h1)
+
+/-- an outcome that is not a connection (nor a panic) -/
+theorem attemptAll_failed (o : Sel) (h : o = .noHealthy ∨ o = .noLocalBalancer ∨ ∃ i, o = .pool i) :
+    (o.isConn || o == .panic) = false := by
+  rcases h with rfl | rfl | ⟨i, rfl⟩
+  · simp [Sel.isConn, beq_noHealthy_panic]
+  · simp [Sel.isConn, beq_noLocalBalancer_panic]
+  · simp [Sel.isConn, beq_pool_panic]
+
 theorem sameQueues_trans (d d1 d2 : DBInfo) (h1 : SameQueues d d1) (h2 : SameQueues d1 d2) : SameQueues d d2 :=
   ⟨h2.1.trans h1.1, h2.2.1.trans h1.2.1, h2.2.2.1.trans h1.2.2.1, h2.2.2.2.trans h1.2.2.2⟩
 
@@ -1082,9 +1396,10 @@ theorem sameQueues_trans (d d1 d2 : DBInfo) (h1 : SameQueues d d1) (h2 : SameQue
     has an outcome that is `Sound`: a connection comes from a node that has a
     positive weight, is up and whose pool answered; under the forced-local
     policy it is in the proxy's datacenter; under preferred-local a remote node
-    is returned only if every local node of positive weight is down or the
-    local node that was selected could not give a connection; "no replica"
-    errors occur only when every candidate node is down; nothing panics. -/
+    is returned only if no local node of positive weight can serve (each is
+    down or its pool fails), and the selection fails only if no node at all can
+    serve; "no replica" errors of the other policies occur only when every
+    candidate node is down; nothing panics. -/
 theorem GetSlaveConn_spec (proxy : Nat) (d : DBInfo) (hwf : WF proxy d) (hfit : Fits d) (policy : Int) :
     ∃ d' o, GetSlaveConn d policy = (d', o) ∧ SameQueues d d' ∧ Sound proxy d policy o := by
   unfold GetSlaveConn
@@ -1105,65 +1420,121 @@ theorem GetSlaveConn_spec (proxy : Nat) (d : DBInfo) (hwf : WF proxy d) (hfit : 
       refine ⟨d1, o, e, hs, ?_⟩
       rcases hc with ⟨i, nd, rfl, h1, h2, h3, h4, h5⟩ | ⟨i, nd, rfl, h1, h2, h3, h4, h5⟩ | ⟨rfl | rfl, hdown⟩
       · exact ⟨nd, h1, h2, h4, h5, fun _ => h3, fun hp => absurd hp (by decide)⟩
-      · exact ⟨nd, h1, h2, h4, h5, fun _ => h3⟩
+      · exact ⟨nd, h1, h2, h4, h5, fun _ => h3, by decide⟩
       · exact ⟨by decide, fun j nd h1 h2 h3 => hdown j nd h1 h2 (h3 (by simp))⟩
       · exact ⟨rfl, fun j nd h1 h2 h3 => hdown j nd h1 h2 (h3 rfl)⟩
     · simp only [hF, if_false]
       by_cases hP : policy = LocalSlaveReadPrefer
       · -- preferred local
         simp only [hP, if_true]
-        obtain ⟨d1, o1, e1, hs1, hc1⟩ := attemptLocal_spec proxy d hwf hfit
+        obtain ⟨d1, o1, t1, e1, hs1, _, hc1⟩ := attemptLocalAll_spec proxy d hwf hfit
         rw [e1]
+        simp only
         have hnF : ¬ (LocalSlaveReadPrefer = LocalSlaveReadForce) := by decide
-        rcases hc1 with ⟨i, nd, rfl, h1, h2, h3, h4, h5⟩ | hrest
+        rcases hc1 with ⟨i, nd, rfl, h1, h2, h3, h4, h5⟩ | ⟨hfail1, hnone1⟩
         · -- served locally
           simp only [Sel.isConn, Bool.true_or, if_true]
           exact ⟨d1, _, rfl, hs1, nd, h1, h2, h4, h5, fun hf => absurd hf hnF, fun _ hne => absurd h3 hne⟩
-        · -- the local attempt gave no connection
-          have hlocal : AllDown proxy d.nodes true ∨ SomeFailing proxy d.nodes true := by
-            rcases hrest with ⟨i, nd, _, h1, h2, h3, h4, h5⟩ | ⟨_, hdown⟩
-            · exact Or.inr ⟨i, nd, h1, h2, fun _ => h3, h4, h5⟩
-            · exact Or.inl (fun j nd h1 h2 h3 => hdown j nd h1 h2 (h3 rfl))
-          have hnot : (o1.isConn || o1 == .panic) = false := by
-            rcases hrest with ⟨i, nd, rfl, _⟩ | ⟨rfl | rfl, _⟩
-            · simp [Sel.isConn, beq_pool_panic]
-            · simp [Sel.isConn, beq_noHealthy_panic]
-            · simp [Sel.isConn, beq_noLocalBalancer_panic]
-          simp only [hnot, Bool.false_eq_true, if_false]
+        · -- no local node can serve
+          have hlocal : NoneServes proxy d.nodes true := fun j nd h1 h2 h3 => hnone1 j nd h1 h2 (h3 rfl)
+          simp only [attemptAll_failed o1 hfail1, Bool.false_eq_true, if_false]
           have hwf1 := wf_of_sameQueues proxy d d1 hs1 hwf
           have hfit1 := fits_of_sameQueues d d1 hs1 hfit
           have hn1 : d1.nodes = d.nodes := hs1.1
-          obtain ⟨d2, o2, e2, hs2, hc2⟩ := attemptRemote_spec proxy d1 hwf1 hfit1
+          obtain ⟨d2, o2, t2, e2, hs2, _, hc2⟩ := attemptRemoteAll_spec proxy d1 hwf1 hfit1
           rw [e2]
+          simp only
           rw [hn1] at hc2
           have hs12 := sameQueues_trans d d1 d2 hs1 hs2
-          rcases hc2 with ⟨i, nd, rfl, h1, h2, h3, h4, h5⟩ | ⟨i, nd, rfl, h1, h2, h3, h4, h5⟩ | ⟨hk, hdown⟩
+          rcases hc2 with ⟨i, nd, rfl, h1, h2, h3, h4, h5⟩ | ⟨hfail2, hnone2⟩
           · simp only [Sel.isConn, Bool.true_or, if_true]
             exact ⟨d2, _, rfl, hs12, nd, h1, h2, h4, h5, fun hf => absurd hf hnF, fun _ _ => hlocal⟩
-          · simp only [Sel.isConn, beq_pool_panic, Bool.or_self, Bool.false_eq_true, if_false]
-            exact ⟨d2, _, rfl, hs12, rfl, Or.inr ⟨i, nd, h1, h2, fun h => absurd h (by decide), h4, h5⟩⟩
-          · have hnot2 : (o2.isConn || o2 == .panic) = false := by
-              rcases hk with rfl | rfl
-              · simp [Sel.isConn, beq_noHealthy_panic]
-              · simp [Sel.isConn, beq_noLocalBalancer_panic]
-            simp only [hnot2, Bool.false_eq_true, if_false]
+          · simp only [attemptAll_failed o2 hfail2, Bool.false_eq_true, if_false]
             refine ⟨d2, _, rfl, hs12, rfl, ?_⟩
-            rcases hlocal with hld | ⟨j, nd, h1, h2, _, h4, h5⟩
-            · left
-              intro j nd h1 h2 _
-              by_cases hdc : nd.dc = proxy
-              · exact hld j nd h1 h2 (fun _ => hdc)
-              · exact hdown j nd h1 h2 hdc
-            · right; exact ⟨j, nd, h1, h2, fun h => absurd h (by decide), h4, h5⟩
+            intro j nd h1 h2 _
+            by_cases hdc : nd.dc = proxy
+            · exact hnone1 j nd h1 h2 hdc
+            · exact hnone2 j nd h1 h2 hdc
       · -- closed, and every other value: the global balancer
         simp only [hP, if_false]
         obtain ⟨d1, o, e, hs, hc⟩ := attemptGlobal_spec proxy d hwf hfit
         refine ⟨d1, o, e, hs, ?_⟩
         rcases hc with ⟨i, nd, rfl, h1, h2, _, h4, h5⟩ | ⟨i, nd, rfl, h1, h2, _, h4, h5⟩ | ⟨rfl | rfl, hdown⟩
         · exact ⟨nd, h1, h2, h4, h5, fun hf => absurd hf hF, fun hp => absurd hp hP⟩
-        · exact ⟨nd, h1, h2, h4, h5, fun hf => absurd hf hF⟩
+        · exact ⟨nd, h1, h2, h4, h5, fun hf => absurd hf hF, hP⟩
         · exact ⟨hP, fun j nd h1 h2 _ => hdown j nd h1 h2 trivial⟩
         · exact ⟨hF, hP, fun j nd h1 h2 _ => hdown j nd h1 h2 trivial⟩
+
+/-- **C25 (which pools a selection asks).** In a well-formed `DBInfo`, under
+    every policy value, one `GetSlaveConn` asks the pool of no node twice, only
+    pools of nodes of positive weight, and under the forced-local policy only
+    pools of the proxy's datacenter. (The harness records the sequence of
+    `ConnPool.Get` calls of every selection and compares it with `GetSlaveConnGets`.) -/
+theorem GetSlaveConnGets_spec (proxy : Nat) (d : DBInfo) (hwf : WF proxy d) (hfit : Fits d) (policy : Int) :
+    (GetSlaveConnGets d policy).Nodup ∧
+      ∀ v ∈ GetSlaveConnGets d policy, ∃ nd, GetNode d.nodes v = some nd ∧ 0 < nd.weight ∧
+        (policy = LocalSlaveReadForce → nd.dc = proxy) := by
+  unfold GetSlaveConnGets
+  by_cases h0 : d.nodes.length = 0 ∨ allSlaveIsOffline d.nodes = true
+  · rw [if_pos h0]; simp
+  · rw [if_neg h0]
+    by_cases hP : policy = LocalSlaveReadPrefer ∧ policy ≠ LocalSlaveReadForce
+    · rw [if_pos hP]
+      have hnF : ¬ (policy = LocalSlaveReadForce) := hP.2
+      obtain ⟨d1, o1, t1, e1, hs1, ⟨hn1, hm1⟩, _⟩ := attemptLocalAll_spec proxy d hwf hfit
+      rw [e1]
+      simp only
+      have hloc : ∀ v ∈ t1.reverse, ∃ nd, GetNode d.nodes v = some nd ∧ 0 < nd.weight ∧
+          (policy = LocalSlaveReadForce → nd.dc = proxy) := by
+        intro v hv
+        obtain ⟨nd, g1, g2, g3⟩ := hm1 v (List.mem_reverse.mp hv)
+        exact ⟨nd, g1, g2, fun _ => g3⟩
+      by_cases hc : (o1.isConn || o1 == .panic) = true
+      · rw [if_pos hc]
+        exact ⟨(List.reverse_perm t1).nodup_iff.mpr hn1, hloc⟩
+      · rw [if_neg hc]
+        have hwf1 := wf_of_sameQueues proxy d d1 hs1 hwf
+        have hfit1 := fits_of_sameQueues d d1 hs1 hfit
+        obtain ⟨d2, o2, t2, e2, _, ⟨hn2, hm2⟩, _⟩ := attemptRemoteAll_spec proxy d1 hwf1 hfit1
+        rw [e2]
+        simp only
+        rw [hs1.1] at hm2
+        refine ⟨?_, ?_⟩
+        · rw [List.nodup_append]
+          refine ⟨(List.reverse_perm t1).nodup_iff.mpr hn1, (List.reverse_perm t2).nodup_iff.mpr hn2, ?_⟩
+          intro a ha b hb hab
+          subst hab
+          obtain ⟨nd, g1, _, g3⟩ := hm1 a (List.mem_reverse.mp ha)
+          obtain ⟨nd', g1', _, g3'⟩ := hm2 a (List.mem_reverse.mp hb)
+          rw [g1] at g1'
+          simp only [Option.some.injEq] at g1'
+          subst g1'
+          exact g3' g3
+        · intro v hv
+          rcases List.mem_append.mp hv with hv | hv
+          · exact hloc v hv
+          · obtain ⟨nd, g1, g2, _⟩ := hm2 v (List.mem_reverse.mp hv)
+            exact ⟨nd, g1, g2, fun hf => absurd hf hnF⟩
+    · rw [if_neg hP]
+      obtain ⟨d', o, e, _, hsound⟩ := GetSlaveConn_spec proxy d hwf hfit policy
+      rw [e]
+      simp only
+      cases o with
+      | conn i =>
+        obtain ⟨nd, g1, g2, _, _, g5, _⟩ := hsound
+        refine ⟨by simp, ?_⟩
+        intro v hv
+        have : v = i := by simpa using hv
+        subst this
+        exact ⟨nd, g1, g2, g5⟩
+      | pool i =>
+        obtain ⟨nd, g1, g2, _, _, g5, _⟩ := hsound
+        refine ⟨by simp, ?_⟩
+        intro v hv
+        have : v = i := by simpa using hv
+        subst this
+        exact ⟨nd, g1, g2, g5⟩
+      | _ => simp
 
 /-! ### histories of selections and status changes -/
 
@@ -1292,40 +1663,122 @@ theorem selected_node_ok (proxy : Nat) (d : DBInfo) (hwf : WF proxy d) (hfit : F
   obtain ⟨nd, h1, h2, h3, _, h5, _⟩ := run_sound proxy ops d hwf hfit _ h
   exact ⟨nd, h1, h2, h3, h5⟩
 
-/-- `prefer_local_first` — **partial**: a remote node is handed out under the
-    preferred-local policy only if every local node of positive weight is down
-    **or some local node that is up has a failing pool**.  The full statement
-    of the property ("only when no local one can serve") would need the second
-    alternative to be "every local node that is up has a failing pool"; the
-    code does not try a second local node after a pool failure
-    (`prefer_local_witness`). -/
-theorem prefer_local_first_partial (proxy : Nat) (d : DBInfo) (hwf : WF proxy d) (hfit : Fits d) (ops : List Op)
+/-- **C25 (`prefer_local_first`, full strength).** Along every history, when a
+    selection under the preferred-local policy hands out a node outside the
+    proxy's datacenter, *no* local node could serve at that moment: every node
+    of the proxy's datacenter with a positive weight is down or its pool fails.
+    ("preferred-local falls back to remote replicas only when no local one can
+    serve"; before the `fix:` commit 5e14b16 this held only in the partial form
+    "all local nodes down or *some* local pool failing", `prefer_local_legacy_witness`.) -/
+theorem prefer_local_first (proxy : Nat) (d : DBInfo) (hwf : WF proxy d) (hfit : Fits d) (ops : List Op)
     (dk : DBInfo) (i : Int) (h : (dk, LocalSlaveReadPrefer, Sel.conn i) ∈ run d ops)
     (nd : Node) (hi : GetNode dk.nodes i = some nd) (hremote : nd.dc ≠ proxy) :
-    AllDown proxy dk.nodes true ∨ SomeFailing proxy dk.nodes true := by
+    ∀ j ndj, GetNode dk.nodes j = some ndj → 0 < ndj.weight → ndj.dc = proxy →
+      ndj.up = false ∨ ndj.poolOk = false := by
   obtain ⟨nd', h1, _, _, _, _, h6⟩ := run_sound proxy ops d hwf hfit _ h
   rw [hi] at h1
   simp only [Option.some.injEq] at h1
   subst h1
-  exact h6 rfl hremote
+  intro j ndj g1 g2 g3
+  exact h6 rfl hremote j ndj g1 g2 (fun _ => g3)
 
-/-- The pinned behaviour behind the known finding: two local nodes, node 0's
-    pool fails, node 1 could serve — the read goes to the remote node 2. -/
-theorem prefer_local_witness :
-    let nodes : List Node := [⟨1, 0, true, false⟩, ⟨1, 0, true, true⟩, ⟨1, 1, true, true⟩]
-    let d : DBInfo := { nodes := nodes,
-                        localB := some ⟨1, [0, 1], [0, 1], [1, 1]⟩,
-                        remoteB := some ⟨0, [2], [2], [1]⟩,
-                        globalB := some ⟨0, [0, 1, 2], [0, 1, 2], [1, 1, 1]⟩ }
-    (GetSlaveConn d LocalSlaveReadPrefer).2 = .conn 2 := by decide
+/-- **C25 (preferred-local serves locally whenever it can).** The converse
+    reading: if some local node of positive weight is up and its pool answers,
+    a preferred-local selection hands out a connection of a *local* node (not
+    an error, not a remote node). -/
+theorem prefer_local_serves (proxy : Nat) (d : DBInfo) (hwf : WF proxy d) (hfit : Fits d) (ops : List Op)
+    (dk : DBInfo) (o : Sel) (h : (dk, LocalSlaveReadPrefer, o) ∈ run d ops)
+    (j : Int) (ndj : Node) (hj : GetNode dk.nodes j = some ndj) (hw : 0 < ndj.weight) (hdc : ndj.dc = proxy)
+    (hup : ndj.up = true) (hpool : ndj.poolOk = true) :
+    ∃ i nd, o = .conn i ∧ GetNode dk.nodes i = some nd ∧ nd.dc = proxy ∧ nd.up = true ∧ nd.poolOk = true := by
+  have hs := run_sound proxy ops d hwf hfit _ h
+  have hnF : ¬ (LocalSlaveReadPrefer = LocalSlaveReadForce) := by decide
+  have contra : ∀ lo, ¬ NoneServes proxy dk.nodes lo := by
+    intro lo hn
+    rcases hn j ndj hj hw (fun _ => hdc) with h' | h'
+    · rw [hup] at h'; cases h'
+    · rw [hpool] at h'; cases h'
+  cases o with
+  | conn i =>
+    obtain ⟨nd, h1, _, h3, h4, _, h6⟩ := hs
+    refine ⟨i, nd, rfl, h1, ?_, h3, h4⟩
+    by_cases hd : nd.dc = proxy
+    · exact hd
+    · exact absurd (h6 rfl hd) (contra true)
+  | pool i => obtain ⟨_, _, _, _, _, _, h7⟩ := hs; exact absurd rfl h7
+  | noSlave =>
+    have := hs ndj (GetNode_mem dk.nodes j ndj hj)
+    rw [hup] at this; cases this
+  | noLocalBalancer => exact absurd hs.1 hnF
+  | noGlobalBalancer => exact absurd rfl hs.2.1
+  | noHealthy => exact absurd rfl hs.1
+  | noLocalOrRemote => exact absurd hs.2 (contra false)
+  | nextErr => exact hs.elim
+  | panic => exact hs.elim
+
+/-- **C25 (preferred-local gives up only when nobody can serve).** A
+    preferred-local selection that does not hand out a connection means that no
+    node of positive weight, local or remote, could serve. -/
+theorem prefer_gives_up_only_if_none_serves (proxy : Nat) (d : DBInfo) (hwf : WF proxy d) (hfit : Fits d)
+    (ops : List Op) (dk : DBInfo) (o : Sel) (h : (dk, LocalSlaveReadPrefer, o) ∈ run d ops)
+    (hno : o.isConn = false) :
+    ∀ j ndj, GetNode dk.nodes j = some ndj → 0 < ndj.weight → ndj.up = false ∨ ndj.poolOk = false := by
+  have hs := run_sound proxy ops d hwf hfit _ h
+  have hnF : ¬ (LocalSlaveReadPrefer = LocalSlaveReadForce) := by decide
+  intro j ndj hj hw
+  cases o with
+  | conn i => simp [Sel.isConn] at hno
+  | pool i => obtain ⟨_, _, _, _, _, _, h7⟩ := hs; exact absurd rfl h7
+  | noSlave => exact Or.inl (hs ndj (GetNode_mem dk.nodes j ndj hj))
+  | noLocalBalancer => exact absurd hs.1 hnF
+  | noGlobalBalancer => exact absurd rfl hs.2.1
+  | noHealthy => exact absurd rfl hs.1
+  | noLocalOrRemote => exact hs.2 j ndj hj hw (fun h => by cases h)
+  | nextErr => exact hs.elim
+  | panic => exact hs.elim
+
+/-- The input of the repaired finding `prefer-remote-while-local-can-serve`:
+    two local nodes, node 0's pool fails, node 1 can serve, remote node 2. -/
+def preferWitness : DBInfo :=
+  { nodes := [⟨1, 0, true, false⟩, ⟨1, 0, true, true⟩, ⟨1, 1, true, true⟩],
+    localB := some ⟨1, [0, 1], [0, 1], [1, 1]⟩,
+    remoteB := some ⟨0, [2], [2], [1]⟩,
+    globalB := some ⟨0, [0, 1, 2], [0, 1, 2], [1, 1, 1]⟩ }
+
+/-- Before the `fix:` commit the read went to the remote node 2 … -/
+theorem prefer_local_legacy_witness :
+    (GetSlaveConnLegacy preferWitness LocalSlaveReadPrefer).2 = .conn 2 := by decide
+
+/-- … the repaired code asks the pool of node 0, then that of node 1, and serves locally. -/
+theorem prefer_local_repaired :
+    (GetSlaveConn preferWitness LocalSlaveReadPrefer).2 = .conn 1 ∧
+      GetSlaveConnGets preferWitness LocalSlaveReadPrefer = [0, 1] := by decide
+
+/-- Non-vacuity of `prefer_local_first` / `prefer_local_serves` /
+    `prefer_gives_up_only_if_none_serves`: a well-formed state built by
+    `InitBalancers` and a history on it with a local selection after a retry, a
+    remote one once both local pools fail, and a failure once the remote pool
+    fails too. -/
+example : ∃ d, InitBalancers ⟨preferWitness.nodes, none, none, none⟩ 0 (fun l => l) (fun l => l) (fun l => l) = .ok d ∧
+    WF 0 d ∧ Fits d ∧
+    (run d [.sel 1, .sel 1, .setPool 1 false, .sel 1, .setPool 2 false, .sel 1]).map (fun t => t.2.2)
+      = [.conn 1, .conn 1, .conn 2, .noLocalOrRemote] := by
+  obtain ⟨d, h1, _, h3, _⟩ := initBalancers_wf preferWitness.nodes 0
+    (fun l => l) (fun l => l) (fun l => l) (fun l => List.Perm.refl l) (fun l => List.Perm.refl l)
+    (fun l => List.Perm.refl l) (by decide)
+  have hc : InitBalancers ⟨preferWitness.nodes, none, none, none⟩ 0 (fun l => l) (fun l => l) (fun l => l) =
+      .ok { preferWitness with localB := some ⟨0, [0, 1], [0, 1], [1, 1]⟩ } := by decide
+  rw [hc] at h1
+  simp only [R.ok.injEq] at h1
+  subst h1
+  refine ⟨_, hc, h3, ?_, by decide⟩
+  intro b hb
+  rcases hb with h | h | h <;> (simp only [preferWitness, Option.some.injEq] at h; subst h; decide)
 
 /-! ### with all replicas up: selections follow the weights exactly -/
 
 /-- every replica is up and its pool answers -/
 def AllServing (nodes : List Node) : Prop := ∀ nd ∈ nodes, nd.up = true ∧ nd.poolOk = true
-
-theorem GetNode_mem (nodes : List Node) (i : Int) (nd : Node) (h : GetNode nodes i = some nd) : nd ∈ nodes :=
-  List.mem_of_getElem? (GetNode_some nodes i nd h).2
 
 /-- With all replicas serving, one selection through the global balancer is
     exactly one step of its cursor. -/
